@@ -41,6 +41,17 @@ def _points(rng, mean, chol, N, real=True):
     return mean + scale * (e @ chol.T.conj() if chol is not None else e)
 
 
+def _offset_slack(y, mean, precision):
+    """first-order effect on the log density of rounding y and the mean to
+    double precision (16 eps each): the subtraction y - mean is exact only up
+    to the magnitude of its operands"""
+    e = 16 * np.finfo(np.float64).eps
+    P = np.atleast_2d(precision)
+    grad = np.linalg.norm((y - mean) @ P.T, axis=-1)
+    mag = np.linalg.norm(y, axis=-1) + np.linalg.norm(mean)
+    return float(np.max(e * mag * grad + (e * mag) ** 2 * np.linalg.norm(P, 2)))
+
+
 def _stack_call(ctx, make, evaluate, lead):
     model = ctx.lib(make)
     out = ctx.lib(evaluate, model)
@@ -60,10 +71,15 @@ def gaussian_full(d, ctx):
     rng = d.rng()
     cov = gen.spd(rng, D, cond, scale, lead)
     mean = rng.normal(size=(*lead, D)) * np.sqrt(scale) * 3
+    # "all means": also means many standard deviations away from the origin
+    offset = 1.0
+    if d.aux(73).integers(0, 4) == 0:
+        offset = float(10.0 ** d.aux(74).uniform(2, 6))
+        mean = mean * offset
     y = np.empty((*lead, N, D))
     for idx in np.ndindex(*lead):
         y[idx] = _points(rng, mean[idx], np.linalg.cholesky(cov[idx]), N)
-    ctx.describe(D=D, lead=lead, N=N, cond=cond, scale=scale)
+    ctx.describe(D=D, lead=lead, N=N, cond=cond, scale=scale, mean_offset=offset)
     ctx.keep(mean=mean, covariance=cov, y=y)
     model = ctx.lib(Gaussian, mean=mean, covariance=cov)
     got = ctx.lib(model.log_pdf, y)
@@ -72,6 +88,7 @@ def gaussian_full(d, ctx):
         ref = od.gaussian_logpdf(y[idx], mean[idx], cov[idx])
         ref2 = od.gaussian_logpdf_scipy(y[idx], mean[idx], cov[idx])
         tol = 1e-9 + 1e-11 * cond * (1 + float(np.max(np.abs(ref))))
+        tol += _offset_slack(y[idx], mean[idx], np.linalg.inv(cov[idx]))
         if not np.allclose(ref, ref2, rtol=0, atol=tol):
             # the two references disagree: numerically too hard, do not judge
             ctx.label('references-disagree')
@@ -98,9 +115,19 @@ def gaussian_diag_spherical(d, ctx):
     else:
         var = spread ** rng.uniform(-0.5, 0.5, size=lead)
         var = np.asarray(var)
-    y = mean[..., None, :] + rng.normal(size=(*lead, N, D)) * \
-        np.sqrt(np.max(var)) * d.choice([0.3, 3.0])
-    ctx.describe(kind=kind, D=D, lead=lead, N=N)
+    width = d.choice([0.3, 3.0])
+    offset = 1.0
+    if d.aux(75).integers(0, 4) == 0:
+        # "all means": many standard deviations away from the origin, points
+        # drawn around the mean with the model's own spread
+        offset = float(10.0 ** d.aux(76).uniform(2, 6))
+        mean = mean * offset * np.sqrt(np.max(var))
+        y = mean[..., None, :] + rng.normal(size=(*lead, N, D)) * \
+            np.sqrt(var[..., None, :] if kind == 'diagonal' else var[..., None, None]) * width
+    else:
+        y = mean[..., None, :] + rng.normal(size=(*lead, N, D)) * \
+            np.sqrt(np.max(var)) * width
+    ctx.describe(kind=kind, D=D, lead=lead, N=N, mean_offset=offset)
     ctx.keep(mean=mean, var=var, y=y)
     cls = DiagonalGaussian if kind == 'diagonal' else SphericalGaussian
     model = ctx.lib(cls, mean=mean, covariance=var,
@@ -117,6 +144,8 @@ def gaussian_diag_spherical(d, ctx):
             ref2 = od.gaussian_logpdf_scipy(
                 y[idx], mean[idx], float(var[idx]) * np.eye(D))
         tol = 1e-9 * (1 + float(np.max(np.abs(ref))))
+        tol += _offset_slack(y[idx], mean[idx], np.diag(1.0 / var[idx]) if kind == 'diagonal'
+                             else np.eye(D) / float(var[idx]))
         assert np.allclose(ref, ref2, rtol=0, atol=tol * 10), 'oracle self-check'
         require_close(np.asarray(got)[idx], ref, f'gaussian-{kind}-logpdf',
                       atol=tol, what=f'D={D} idx={idx}')
